@@ -51,7 +51,8 @@ func vpC19Agree(step string, n NaturalLanguageValues, ref []vpKV, tags []LangRef
 }
 
 func vpC19Hist(h int) {
-	tags := []LangRef{NilLangRef, LangRef([]byte{vpRange('a', 'c')}), LangRef([]byte{vpRange('a', 'c')})}
+	// the nil tag "-", the empty tag "" (a different tag), and two letters that may coincide
+	tags := []LangRef{NilLangRef, LangRef([]byte{vpRange('a', 'c')}), LangRef([]byte{vpRange('a', 'c')}), LangRef("")}
 	var n NaturalLanguageValues
 	var ref []vpKV
 	for step := 0; step < h; step++ {
